@@ -28,7 +28,7 @@ REQUIRED_BUCKETS = (['entry:' + e for e in ENTRIES] + ['class:in', 'class:near',
                                              'bytes', 'quote-tsq', 'quote-tdq', 'quote-sq', 'quote-dq', 'esc-hex', 'esc-oct',
                                              'esc-u', 'esc-named', 'int-hex', 'int-oct', 'int-bin', 'int-us', 'float-exp',
                                              'imag', 'minus', 'one-tuple', 'trailing-comma', 'nl-in-bracket',
-                                             'comment-in-bracket', 'backslash-cont', 'parenthesised', 'empty-list',
+                                             'comment-in-bracket', 'backslash-cont', 'parenthesised', 'parenthesised-nested', 'empty-list',
                                              'empty-tuple', 'empty-dict', 'adjacent-nosep', 'literal-newline-in-triple']])
 ORACLE_COUNTERS = ['oracle_evals', 'accepted_equal', 'rejected_as_required']
 ASSUMPTIONS = ['ast.literal_eval of CPython is the reference for the value of a literal',
